@@ -5,7 +5,7 @@
    Bounded (all DAGs on <= 4 nodes, all disjoint L,S, all ordered pairs, all Z; kernel computation):
    mag_adjacency_bounded_4, mag_independence_bounded_4 (the full unbounded statement is Spec.mag_full_stmt). *)
 From Coq Require Import List Arith Bool.
-From PG Require Import Base.ListSet Graph.MGraph Graph.MSep C06.Model C06.Spec C06.Enum C06.Proofs C06.NodeLevel C06.Bounded_n4 C06.BoundedProp C06.Unbounded C06.UnboundedMag.
+From PG Require Import Base.ListSet Graph.MGraph Graph.MSep C06.Model C06.Spec C06.Enum C06.Proofs C06.NodeLevel C06.Bounded_n4 C06.BoundedProp C06.Unbounded C06.UnboundedMag C06.UnboundedInd.
 Import ListNotations.
 
 Theorem inducing_exact : inducing_exact_stmt.
@@ -84,3 +84,13 @@ Theorem mag_adjacency_all : forall d L S,
   is_dag d -> incl (L ++ S) (V d) -> (forall v, In v L -> ~ In v S) -> mag_adjacency_stmt d L S.
 Proof. exact C06.UnboundedMag.mag_adjacency_all. Qed.
 Print Assumptions mag_adjacency_all.
+
+(* half of the independence clause (Richardson-Spirtes Thm 4.18) for ALL DAGs: d-separation given Z u S in the DAG implies
+   m-separation given Z in the MAG (every m-connecting path of the MAG unfolds into an open walk of the DAG).
+   The converse (m-separation in the MAG => d-separation in the DAG) is proved only to n = 4 (mag_independence_bounded_4). *)
+Theorem mag_independence_fwd : forall d L S,
+  is_dag d -> incl (L ++ S) (V d) -> (forall v, In v L -> ~ In v S) ->
+  forall x y Z, In x (obs d L S) -> In y (obs d L S) -> x <> y -> incl Z (obs d L S) ->
+    dsep d [x] [y] (Z ++ S) -> msep (dag_to_mag_model d L S) [x] [y] Z.
+Proof. exact C06.UnboundedInd.mag_independence_fwd. Qed.
+Print Assumptions mag_independence_fwd.
